@@ -25,12 +25,13 @@ ASSUMPTIONS = [
     "Which exception is raised is not compared.",
 ]
 REQUIRED_CLASSES = ["in-order", "misordered", "unknown-name", "ignored-name", "contig-without-data", "cut-inside-group", "last-group-misplaced",
-                    "iter", "pileup", "mask-sum", "compute", "track", "multistream", "forbes-jaccard", "kept-underscore-name", "text-typed-contig-column", "long-groups"]
-BOUNDS = {"quick": "genomes of 3 contigs (+1 ignored): every group sequence over 5 labels (326) x 3 chunkings x 8 consumers; 4-contig genomes sampled (600)",
-          "thorough": "genomes of up to 4 contigs: every group sequence over 6 labels (1957) x 4 chunkings x 8 consumers; 48000 sampled"}
+                    "iter", "pileup", "mask-sum", "compute", "track", "multistream", "forbes-jaccard", "kept-underscore-name", "text-typed-contig-column", "long-groups",
+                    "compute-joint", "joint-evaluation-one-dataset-empty-on-a-contig"]
+BOUNDS = {"quick": "genomes of 3 contigs (+1 ignored): every group sequence over 5 labels (326) x 3 chunkings x 9 consumers; 4-contig genomes sampled (600)",
+          "thorough": "genomes of up to 4 contigs: every group sequence over 6 labels (1957) x 4 chunkings x 9 consumers; 48000 sampled"}
 BUDGET_S = {"quick": 200, "thorough": 1500}
 
-CONSUMERS = ["iter", "pileup", "mask-sum", "compute", "track", "multistream", "forbes-jaccard", "left-join"]
+CONSUMERS = ["iter", "pileup", "mask-sum", "compute", "track", "multistream", "forbes-jaccard", "left-join", "compute-joint"]
 
 
 def _where(e):
@@ -79,6 +80,11 @@ def classify(case):
         cl.append("long-groups")
     if case.get("text_key") and case["consumer"] in ("iter", "multistream"):
         cl.append("text-typed-contig-column")
+    if case["consumer"] == "compute-joint" and v == "ok":
+        kept_names = [n for n in genome if n not in ignored]
+        comp = {n for i, n in enumerate(kept_names) if (case.get("other_mask", 1) >> i) & 1} or {kept_names[0]}
+        if any((n in comp) != (n in seq) for n in kept_names[1:]):
+            cl.append("joint-evaluation-one-dataset-empty-on-a-contig")
     if any("_" in g and g in genome and g not in ignored for g in seq):
         cl.append("kept-underscore-name")
     n_entries = sum(case["sizes"][i % len(case["sizes"])] for i in range(len(seq)))
@@ -166,6 +172,28 @@ def check(case, stats=None):
                 seen = {}
                 for c, s, e in zip(_names(d.chromosome), d.start.tolist(), d.stop.tolist()):
                     seen.setdefault(c, []).append((s, e))
+        elif consumer == "compute-joint":
+            # two streamed datasets synchronised with the same genome and evaluated in one compute call; the companion has an entry on the
+            # contigs its mask names (so there are contigs where one of the two has data and the other has none), and is listed first or second
+            g = genome()
+            kept_names = [n for n, _ in case["genome"] if n not in ignored]
+            mask = case.get("other_mask", 1)
+            comp = [(n, 0, 1) for i, n in enumerate(kept_names) if (mask >> i) & 1] or [(kept_names[0], 0, 1)]
+            comp_t = Interval([r[0] for r in comp], np.array([r[1] for r in comp], dtype=int), np.array([r[2] for r in comp], dtype=int))
+            comp_cut = case.get("other_cut", 0) % len(comp)
+            comp_chunks = [comp_t[:comp_cut], comp_t[comp_cut:]] if comp_cut else [comp_t]
+            gc = g.get_intervals(NpDataclassStream(iter(comp_chunks), dataclass=Interval))
+            gm = g.get_intervals(stream())
+            nodes = {"c_chrom": gc.chromosome, "c_start": gc.start, "c_stop": gc.stop, "m_chrom": gm.chromosome, "m_start": gm.start, "m_stop": gm.stop}
+            if not case.get("other_first", True):
+                nodes = dict(reversed(list(nodes.items())))
+            res = bnp.compute(nodes)
+            seen = {}
+            for c, s_, e_ in zip(_names(res["m_chrom"]), np.asarray(res["m_start"]).tolist(), np.asarray(res["m_stop"]).tolist()):
+                seen.setdefault(c, []).append((s_, e_))
+            got_comp = list(zip(_names(res["c_chrom"]), np.asarray(res["c_start"]).tolist(), np.asarray(res["c_stop"]).tolist()))
+            if want == "ok" and got_comp != comp:
+                return [Failure("C12:contig-entries-differ:compute-joint", {"dataset": "companion", "expected": comp, "actual": got_comp, "groups": case["groups"]})]
         elif consumer == "track":
             bg = BedGraph([r[0] for r in rows], np.array([r[1] for r in rows], dtype=int), np.array([r[1] + 1 for r in rows], dtype=int),
                           np.array([1 + i for i in range(len(rows))], dtype=int))
@@ -298,7 +326,10 @@ def core_cases(n_contigs, stride=1, offset=0):
                     cuts = [b - 1 for b in bounds if b - 1 not in bounds and b - 1 > 0]
                 else:
                     cuts = list(range(1, n_entries))
-                yield {"genome": genome, "ignored": ["chrU_ign"], "groups": seq, "sizes": sizes, "cuts": cuts, "consumer": consumer}
+                case = {"genome": genome, "ignored": ["chrU_ign"], "groups": seq, "sizes": sizes, "cuts": cuts, "consumer": consumer}
+                if consumer == "compute-joint":
+                    case.update(other_mask=1 + (cnt // len(CONSUMERS)) % (2 ** n_contigs - 1), other_first=bool((cnt // 7) % 2), other_cut=(cnt // 11) % 3)
+                yield case
 
 
 def task_core(stats, known_open, n_contigs, stride=1, offset=0):
@@ -337,8 +368,11 @@ def sampled_case(draw):
         sizes = draw(st.lists(st.integers(1, 3), min_size=1, max_size=4))
     n_entries = sum(sizes[i % len(sizes)] for i in range(len(seq)))
     cuts = draw(st.one_of(st.just([]), st.lists(st.integers(1, max(1, n_entries)), max_size=6)))
-    return {"genome": genome, "ignored": ignored, "groups": seq, "sizes": sizes, "cuts": cuts, "consumer": draw(st.sampled_from(CONSUMERS)),
+    case = {"genome": genome, "ignored": ignored, "groups": seq, "sizes": sizes, "cuts": cuts, "consumer": draw(st.sampled_from(CONSUMERS + ["compute-joint"])),
             "text_key": draw(st.booleans())}
+    if case["consumer"] == "compute-joint":
+        case.update(other_mask=draw(st.integers(1, 31)), other_first=draw(st.booleans()), other_cut=draw(st.integers(0, 3)))
+    return case
 
 
 def task_sampled(stats, known_open, n, seed):
